@@ -53,13 +53,14 @@ pub struct AirReport {
     pub n_aux: usize,
     pub n_assert: usize,
     pub aux_last: Vec<Vec<Value>>,
+    pub aux_first: Vec<Vec<Value>>,
 }
 
 pub fn check_trace(trace: &mut ExecutionTrace, inputs: processor::StackInputs, k: usize, seed: u64) -> AirReport {
     let air = make_air(trace, inputs);
     let mut rep = AirReport { main_viol: vec![], aux_viol: vec![], assert_viol: vec![], rows_checked: 0,
         n_main: air.context().num_main_transition_constraints(), n_aux: air.context().num_aux_transition_constraints(),
-        n_assert: 0, aux_last: vec![] };
+        n_assert: 0, aux_last: vec![], aux_first: vec![] };
     let len = trace.length();
     let width = trace.main_trace_width();
     let polys = air.get_periodic_column_polys();
@@ -123,8 +124,22 @@ pub fn check_trace(trace: &mut ExecutionTrace, inputs: processor::StackInputs, k
                 }
             }
         }
+        if let Ok(colname) = std::env::var("MVH_AUX_DEBUG") {
+            let col: usize = colname.parse().unwrap_or(6);
+            for t in 0..len - 2 {
+                if aux.get(col, t) != aux.get(col, t + 1) {
+                    let sel: Vec<u64> = (0..5).map(|i| trace.main_segment().get_column(miden_air::trace::CHIPLETS_OFFSET + i)[t].as_int()).collect();
+                    eprintln!("aux col {col} changes at row {t} -> {} ; chiplet selectors {sel:?} ; op {}", t + 1, op_at(trace.main_segment(), t).0);
+                }
+            }
+        }
         // value of every auxiliary column in the last non-random row
         let last = len - 2;
+        rep.aux_first.push((0..aw).map(|col| {
+            let v = aux.get(col, 0);
+            let e = v.to_base_elements();
+            json!([e[0].as_int().to_string(), e[1].as_int().to_string()])
+        }).collect());
         rep.aux_last.push((0..aw).map(|col| {
             let v = aux.get(col, last);
             let e = v.to_base_elements();
@@ -170,7 +185,7 @@ pub fn air_check(inp: &str, outp: &str) {
                         first = Some(match rep {
                             Ok(rep) => json!({"outcome": "ok", "rows_checked": rep.rows_checked, "n_main": rep.n_main, "n_aux": rep.n_aux,
                                 "n_assert": rep.n_assert, "main_viol": rep.main_viol, "aux_viol": rep.aux_viol, "assert_viol": rep.assert_viol,
-                                "aux_last": rep.aux_last}),
+                                "aux_last": rep.aux_last, "aux_first": rep.aux_first}),
                             Err(m) => json!({"outcome": "air_panic", "msg": m}),
                         });
                     }
